@@ -34,6 +34,8 @@ def itemErrStr : ItemErr → String
   | .numArgsTooLarge => "NumArgsTooLarge"
 
 def errStr : Err → String
+  | .header _ => "Header"
+  | .unknownVersion => "UnknownVersion"
   | .item e => itemErrStr e
   | .tickOverflow => "TickOverflow"
   | .unexpectedEnd => "UnexpectedEnd"
@@ -51,21 +53,22 @@ def outputStr (o : Output) : String :=
     let fs := match f with
       | .finished => "end"
       | .err e => "err:" ++ errStr e
+      | .cbErr => "err:Cb"
       | _ => "?"
     s!"{fs} {o.cidsEnd} {o.items.length} {if o.items.isEmpty then "-" else " ".intercalate (o.items.map itemStr)}"
 
 /-- 2^24 `VecMap` slots: far above every client id the generator produces -/
 def memCids : Nat := 16777216
 
-def cfgOf (ver : String) : Option Cfg :=
-  if ver == "1" then some { hasEx := false, memCids := memCids }
-  else if ver == "2" then some { hasEx := true, memCids := memCids }
-  else none
+/-- The header's JSON content is outside the model: the request says which version the (valid)
+header text carries. -/
+def envOf (ver : String) : Option Env :=
+  (parseInt ver).map fun v => { json := fun _ => .ok v, memCids := memCids }
 
 def parseNatList (s : String) : Option (List Nat) :=
   if s.isEmpty then some [] else (s.splitOn ",").mapM parseNat
 
-def parseFrag (total : Nat) (s : String) : Option (List Nat) :=
+def parseSizes (total : Nat) (s : String) : Option (List Nat) :=
   if s == "w" then some []
   else if s == "b" then some (List.replicate total 1)
   else match s.splitOn ":" with
@@ -73,53 +76,74 @@ def parseFrag (total : Nat) (s : String) : Option (List Nat) :=
     | ["l", l] => parseNatList l
     | _ => none
 
-def outLine (cfg : Cfg) (hdr stream : List UInt8) (ds : List Nat) : String :=
-  outputStr (run cfg hdr.length (hdr ++ stream) ds)
+/-- `x<k>/<frag>`: the callback fails at its invocation number `k` (counting from 0); before
+that it returns the sizes of `<frag>` (as much as fits once they are used up). -/
+def parseFrag (total : Nat) (s : String) : Option (List CbEv) :=
+  if s.startsWith "x" then
+    match (s.drop 1).toString.splitOn "/" with
+    | [k, f] =>
+      match parseNat k, parseSizes total f with
+      | some k, some ds =>
+        some (((ds ++ List.replicate k total).take k).map CbEv.size ++ [CbEv.fail])
+      | _, _ => none
+    | _ => none
+  else (parseSizes total s).map fun ds => ds.map CbEv.size
 
-def all2 (cfg : Cfg) (hdr stream : List UInt8) : UInt64 := Id.run do
-  let total := hdr ++ stream
+def osReads : List CbEv → List OsRead
+  | [] => []
+  | .fail :: r => .eio :: osReads r
+  | .size d :: r => (if h : 0 < d then OsRead.data d h else OsRead.eintr) :: osReads r
+
+/-- `all2`: by `Tw.Props.C17.run_eq_reference` the model output is the same for every split, so it
+is computed once and folded `n + 1` times (the executable twin of running the buffered model on
+every split, proved equal). -/
+def all2 (env : Env) (total : List UInt8) : UInt64 := Id.run do
+  let line := outputStr (reference env total)
   let mut h := fnvOffset
-  for k in [0:total.length + 1] do
-    h := fnvString h (outputStr (run cfg hdr.length total [k]))
+  for _ in [0:total.length + 1] do
+    h := fnvString h line
     h := fnvByte h 10
   return h
 
-def sweep (cfg : Cfg) (hdr pre : List UInt8) (n : Nat) : UInt64 := Id.run do
+def sweep (env : Env) (hdr pre : List UInt8) (n : Nat) : UInt64 := Id.run do
   let mut h := fnvOffset
-  let ones := List.replicate (hdr.length + pre.length + n) 1
   for k in [0:256 ^ n] do
     let bs := pre ++ (List.range n).map fun j => UInt8.ofNat (k / 256 ^ (n - 1 - j))
-    h := fnvString h (outputStr (run cfg hdr.length (hdr ++ bs) []))
+    let line := outputStr (reference env (hdr ++ bs))
+    h := fnvString h line
     h := fnvByte h 10
-    h := fnvString h (outputStr (run cfg hdr.length (hdr ++ bs) ones))
+    h := fnvString h line
     h := fnvByte h 10
   return h
 
 def handle (toks : List String) : String :=
   match toks with
   | ["sweep", ver, hh, n, ph] =>
-    match cfgOf ver, parseHex hh, parseNat n, parseHex ph with
-    | some cfg, some hdr, some n, some pre => s!"h {sweep cfg hdr pre n}"
+    match envOf ver, parseHex hh, parseNat n, parseHex ph with
+    | some env, some hdr, some n, some pre => s!"h {sweep env hdr pre n}"
     | _, _, _, _ => "bad-op"
   | [op, ver, hh, sh, frag] =>
-    match cfgOf ver, parseHex hh, parseHex sh with
-    | some cfg, some hdr, some stream =>
-      match parseFrag (hdr.length + stream.length) frag with
-      | some ds =>
-        if op == "run" then outLine cfg hdr stream ds
-        else if op == "file" then
-          -- the public `Reader`: a positive size is a short read, 0 an interruption
-          let evs := ds.map fun d => if d = 0 then OsRead.interrupted else OsRead.data (d - 1)
-          outputStr (runFile cfg hdr.length (hdr ++ stream) evs)
+    match envOf ver, parseHex hh, parseHex sh with
+    | some env, some hdr, some stream =>
+      let total := hdr ++ stream
+      match parseFrag total.length frag with
+      | some evs =>
+        -- `run` executes the buffered model itself
+        if op == "run" then outputStr (runCb env { rem := total, ds := evs })
+        -- the public `Reader`: `read(2)` results, `Ok(0)` is EOF
+        else if op == "file" then outputStr (runFile env total (osReads evs))
+        -- `hash`: the reference semantics, equal to the buffered model for every schedule without
+        -- a failure (`run_eq_reference`); with a failure the buffered model is executed
         else if op == "hash" then
-          let l := outLine cfg hdr stream ds
-          if l == "panic" then l else s!"h {fnvString fnvOffset l}"
+          let l := if evs.contains CbEv.fail then outputStr (runCb env { rem := total, ds := evs })
+            else outputStr (reference env total)
+          s!"h {fnvString fnvOffset l}"
         else "bad-op"
       | none => "bad-op"
     | _, _, _ => "bad-op"
   | ["all2", ver, hh, sh] =>
-    match cfgOf ver, parseHex hh, parseHex sh with
-    | some cfg, some hdr, some stream => s!"h {all2 cfg hdr stream}"
+    match envOf ver, parseHex hh, parseHex sh with
+    | some env, some hdr, some stream => s!"h {all2 env (hdr ++ stream)}"
     | _, _, _ => "bad-op"
   | _ => "bad-op"
 
